@@ -760,7 +760,9 @@ J_C09(i) ==
                 stored == \E x \in InflightOf(pre, e.c) : x.pid = r.pid IN
             IF r.phase = "rel" THEN
                 Cat(<<If(Len(rels) = 0 /\ stored, Cmp("C09.pubrel-not-resent", e.c, r.m, r.pid)),
-                      If(Len(rels) = 0 /\ ~stored, Cmp("C09.unacked-not-resent-record-gone", e.c, r.m, r.pid)),
+                      \* (a record the deferred-send tail deleted cannot be resent in whatever phase the exchange is: recorded finding)
+                      If(Len(rels) = 0 /\ ~stored /\ r.pid \in Get(g.dsdel, e.c, {}), Cmp("C09.unacked-not-resent-after-deferred-send-deletion", e.c, r.m, r.pid)),
+                      If(Len(rels) = 0 /\ ~stored /\ r.pid \notin Get(g.dsdel, e.c, {}), Cmp("C09.unacked-not-resent-record-gone", e.c, r.m, r.pid)),
                       If(Len(pubs) > 0, Cmp("C09.publish-resent-after-pubrec", e.c, r.m, r.pid))>>)
             ELSE
                 Cat(<<If(Len(pubs) = 0 /\ stored, Cmp("C09.unacked-not-resent", e.c, r.m, r.pid)),
@@ -1127,6 +1129,19 @@ J_C06S(i) ==
                  /\ ~(e.c = c /\ e.ev \in {"unsubscribe", "connect", "disconnect", "netdrop"}),
                Cmp("C06.group-member-lost", c, fs, 0))))
 
+(* ... and the same for plain subscriptions: a subscription of the current session that was in the topic index before  *)
+(* this step is still there after it, unless the step is the client's own UNSUBSCRIBE / connection change or ends    *)
+(* the session (the index is what every delivery rule reads its expectation from)                                    *)
+J_C03S(i) ==
+    LET e == Trace[i]
+        G == GhostNextOf(i).subG IN
+    ForAll({c \in DOMAIN G : HasClient(e.st, c) /\ HasClient(Pre(i), c)}, LAMBDA c :
+        ForAll({fs \in G[c] : \E s \in Subs(Pre(i)) : s.kind = "client" /\ s.c = c /\ s.fs = fs}, LAMBDA fs :
+            If(~(\E s \in Subs(e.st) : s.kind = "client" /\ s.c = c /\ s.fs = fs)
+                 /\ ~(e.c = c /\ e.ev \in {"unsubscribe", "connect", "disconnect", "netdrop", "raw"})
+                 /\ e.ev # "tick",
+               Cmp("C03.subscription-lost", c, fs, 0))))
+
 (* the options under which the broker's topic index holds a client's (non-shared) subscription are those of the     *)
 (* client's latest granted SUBSCRIBE of that filter in the current session (they decide QoS, identifiers, retain    *)
 (* flag of every later delivery)                                                                                    *)
@@ -1145,7 +1160,7 @@ Judge(i) ==
           If(T("C06"), J_C06(i)),
           If(T("C04"), J_C04(i) \o J_C04R(i)),
           If(T("C04"), J_C04S(i)),
-          If(T("C06"), J_C06S(i)),
+          If(T("C06"), J_C06S(i)), If(T("C03") \/ T("C05") \/ T("C15"), J_C03S(i)),
           If(T("C05"), J_C05(i)),
           If(T("C07"), J_C07(i)),
           If(T("C08"), J_C08(i)),
